@@ -182,13 +182,15 @@ func init() {
 		scs = append(scs, &engine.Scenario{
 			Name: "C15-shrink-relations", Cfgs: append(cfgs([]int{1, 2}, []int{0}, one, relUniverse),
 				drv.Config{Cap: 8, CapRel: 1, Universe: relUniverse}, drv.Config{Universe: relUniverse}), Filters: relFilters(), Slots: 1,
-			Oracle:   drv.Oracle{World: true, Typed: true, Family: relFamily(), Filters: true, Lock: true},
-			Preludes: relPreludes(model.PathMapN),
+			Oracle: drv.Oracle{World: true, Typed: true, Family: relFamily(), Filters: true, Lock: true},
+			Preludes: append(relPreludes(model.PathMapN), append(append([]model.Op{}, relPreludes(model.PathMapN)[2]...),
+				model.Op{K: model.OpReset}, model.Op{K: model.OpShrink},
+				model.Op{K: model.OpNew, Path: model.PathMapN, Cs: ct.Of(ct.P)}, model.Op{K: model.OpNew, Path: model.PathMapN, Cs: ct.Of(ct.P)})),
 			Alphabet: concat(relAlphabet(relOpts{path: model.PathMapN, maxAlive: 5, batch: true, two: true, nTargets: 2}), shr, qf),
 			Depth:    d, AfterOp: after,
 		})
 		ob := plainOpts{a: ct.P, b: ct.Q, c: ct.NumComps, path: model.PathMapN, maxAlive: 8, batch: true}
-		sc2 := plainScenario("C15-shrink-batches", ob, cfgs([]int{1, 2}, []int{0}, one, []ct.Comp{ct.P, ct.Q, ct.T9}), d,
+		sc2 := plainScenario("C15-shrink-batches", ob, cfgs([]int{1, 2, 3}, []int{0}, one, []ct.Comp{ct.P, ct.Q, ct.T9}), d,
 			drv.Oracle{World: true, Typed: true, Filters: true, Lock: true}, plainPreludes(ct.P, ct.Q, model.PathMapN))
 		sc2.Alphabet = concat(plainAlphabet(ob), shr, func(m *model.Model) []model.Op {
 			return append(queryOps(m, []int{0}, nil), regOps(m, []int{1})...)
@@ -304,7 +306,16 @@ func init() {
 		if t == Thorough {
 			sc.Cfgs = cfgs([]int{1, 2}, []int{0, 62, 126, 190, 250}, one, u)
 		}
-		return &Check{ID: "C03", Scenarios: []*engine.Scenario{sc},
+		scs3 := []*engine.Scenario{sc}
+		if t == Quick {
+			hi := *sc
+			hi.Name = "C03-queries/high-ids"
+			hi.Cfgs = cfgs([]int{1}, []int{126, 190, 250}, one, u)
+			hi.Depth = d - 1
+			hi.Preludes = pre[1:]
+			scs3 = append(scs3, &hi)
+		}
+		return &Check{ID: "C03", Scenarios: scs3,
 			Rule: fmt.Sprintf("world states = all histories of the relation/batch alphabet (tables emptied, freed by Shrink, recycled; targets dying, IDs recycled) from 3 preludes; in every state a family of %d filters (with-sets over {P,Q,R1,R2} x none/one excluded/exclusive x relation constraints {none, zero, #0, #1} given in the filter and per query; typed Filter0/1/2 with With, and UnsafeFilter) plus persistent filters whose targets die is evaluated: visited multiset, once each, Count, EntityAt order, Get pointers address-equal to Unsafe.Get with model values, GetRelation, unlocked afterwards; non-trivial = >=1 alive entity", len(fam))}
 	}
 
